@@ -152,6 +152,7 @@ class Gen:
         self.used_rules = set()
         self.choice_used = set()
         g.start = 's'
+        pratt_rules = set()
         for i, nm in enumerate(names):
             self.cur_rule = nm
             self.cur_idx = i
@@ -166,16 +167,20 @@ class Gen:
             if not is_start and self.p('pratt') and len(self.pool) >= 4:
                 g.rules.append((nm, False, self.pratt(nm)))
                 g.features.add('pratt')
+                pratt_rules.add(nm)
                 continue
             elided = (not is_start) and self.p('elide') and rng.random() < 0.5
             self.cur_elided = elided
             rx = self.regex(self.o['depth'], top=True)
             if elided:
                 g.features.add('elided_rule')
-                if self.p('whole_create') and rx[0] == 'cat':
-                    pos = rng.randint(1, len(rx[1]))
-                    rx = ('cat', rx[1][:pos] + [('create', None, rng.choice(['w', None]))] + rx[1][pos:])
-                    g.features.add('whole_create')
+            # whole-rule creation `>`: in elided rules, and (half as often) in ordinary non-start rules
+            if (elided or (not is_start and rng.random() < 0.5)) and self.p('whole_create') and rx[0] == 'cat':
+                pos = rng.randint(1, len(rx[1]))
+                rx = ('cat', rx[1][:pos] + [('create', None, rng.choice(['w', None] + self.names[1:]))] + rx[1][pos:])
+                g.features.add('whole_create')
+                if not elided:
+                    g.features.add('whole_create_plain')
             g.rules.append((nm, elided, rx))
         # make sure every rule is referenced at least once: append references to the start rule
         refd = set()
@@ -186,6 +191,15 @@ class Gen:
             cand = [n for n in names[1:]]
             g.parts = rng.sample(cand, rng.randint(1, min(2, len(cand))))
             g.features.add('parts')
+            # a part rule that can be empty (the entry point is then legal on an input without any token)
+            if rng.random() < 0.4:
+                pn = rng.choice(g.parts)
+                for k, (n, e, r) in enumerate(g.rules):
+                    if n == pn and r is not None and n not in pratt_rules:
+                        body = ('paren', r) if r[0] in ('alt', 'choice') else r
+                        g.rules[k] = (n, e, (rng.choice(['opt', 'star']), ('paren', body) if body[0] == 'cat' else body))
+                        g.features.add('nullable_part')
+                        break
         # a part rule is an entry point of its own: half of the time it stays unreferenced, so that
         # the rules it calls are reachable only through it
         free_parts = set(g.parts) if rng.random() < 0.5 else set()
@@ -238,7 +252,7 @@ class Gen:
             out.insert(rng.randint(1, len(out)), ('assert', self.num))
             g.features.add('assert')
         if self.p('rename'):
-            out.insert(rng.randint(0, len(out)), ('rename', rng.choice(['foo', 'bar', 'r1', 's'])))
+            out.insert(rng.randint(0, len(out)), ('rename', rng.choice(['foo', 'bar'] + self.names[1:] + ['s'])))
             g.features.add('rename')
         if self.cur_idx != 0 and not self.cur_elided and self.p('elide'):
             out.insert(rng.randint(0, len(out)), ('elide',))
@@ -248,7 +262,7 @@ class Gen:
             n = self.marker_n
             i = rng.randint(0, len(out) - 1)
             j = rng.randint(i + 1, len(out))
-            out = out[:i] + [('marker', n)] + out[i:j] + [('create', n, rng.choice(['foo', 'bar', 'baz', None]))] + out[j:]
+            out = out[:i] + [('marker', n)] + out[i:j] + [('create', n, rng.choice(['foo', 'bar', 'baz', None] + self.names[1:]))] + out[j:]
             g.features.add('marker')
         if self.cur_idx != 0 and self.p('ret') and len(out) >= 1:
             out.insert(rng.randint(1, len(out)), ('return',))
@@ -364,14 +378,14 @@ class Gen:
                 t = pool.pop()
                 used.append(t)
                 b = ('cat', [('rule', nm), ('tok', t), ('rule', nm)])
-                if rng.random() < 0.35:
+                if rng.random() < 0.5:
                     g.right.append(t)
             elif kind == 'infix2':
                 t1, t2 = pool.pop(), pool.pop()
                 used += [t1, t2]
                 b = ('cat', [('rule', nm), ('paren', ('alt', [('tok', t1), ('tok', t2)])), ('rule', nm)])
                 r = rng.random()
-                if r < 0.3:
+                if r < 0.45:
                     g.right += [t1, t2]
             elif kind == 'postfix':
                 t = pool.pop()
@@ -382,7 +396,7 @@ class Gen:
                 used += [t1, t2]
                 b = ('cat', [('rule', nm), ('tok', t1), ('rule', nm), ('tok', t2), ('rule', nm)])
             if self.p('rename') and rng.random() < 0.5:
-                b = ('cat', b[1] + [('rename', rng.choice(['bin', 'foo']))])
+                b = ('cat', b[1] + [('rename', rng.choice(['bin', 'foo'] + self.names[1:]))])
                 g.features.add('rename')
             # actions and assertions inside operator branches (behind the operator token)
             if self.p('assertion') and rng.random() < 0.6:
@@ -395,7 +409,8 @@ class Gen:
             if self.p('action') and rng.random() < 0.6 and not self.in_choice_alt and nm not in self.choice_used:
                 self.num += 1
                 items = list(b[1])
-                items.insert(rng.randint(2, len(items)), ('action', self.num))
+                # also between the left operand and the operator (the operator is found behind it)
+                items.insert(rng.randint(1, len(items)), ('action', self.num))
                 b = ('cat', items)
                 g.features.add('action')
                 g.features.add('pratt_deco')
@@ -405,7 +420,7 @@ class Gen:
         for _ in range(npre):
             if pool:
                 t = pool.pop()
-                branches.insert(rng.randint(0, len(branches)) if only_unary else len(branches), ('cat', [('tok', t), ('rule', nm)]))
+                branches.insert(rng.randint(0, len(branches)) if (only_unary or rng.random() < 0.5) else len(branches), ('cat', [('tok', t), ('rule', nm)]))
         # parenthesised
         if len(pool) >= 2 and rng.random() < 0.5:
             t1, t2 = pool.pop(), pool.pop()
